@@ -77,6 +77,20 @@ def make_morph(d):
         verts, conn = np.array(verts), np.array(conn)
         if mask is not None:
             mask = np.array(mask)
+    how = d.get("assign")
+    if how:
+        # the arrays arrive AFTER construction (what ArrayMorphLoader does); the mask follows the constructor's rule
+        eff = np.array(mask) if mask is not None and np.any(mask) else np.zeros(n, dtype="bool")
+        if how == "all":
+            m = am.ArrayMorphology()
+            m.id = d.get("id")
+            m.physical_mask = eff
+            m.vertices = np.array(verts)
+            m.connectivity = np.array(conn)
+        else:  # "mask": built through the constructor without a mask, the mask is assigned afterwards
+            m = am.ArrayMorphology(vertices=verts, connectivity=conn, id=d.get("id"))
+            m.physical_mask = eff
+        return m
     return am.ArrayMorphology(vertices=verts, connectivity=conn, id=d.get("id"), physical_mask=mask)
 
 
@@ -148,9 +162,16 @@ def same_arrays(a, b):
     return all(x.shape == y.shape and np.array_equal(x, y) for x, y in zip(a, b))
 
 
-def morph_json(m):
+def morph_json(m, views=False):
     v, c, k = arrays_of(m)
-    return {"verts": [[int(x) for x in row] for row in v.reshape(-1, 4)] if v.size else [],
+    extra = {}
+    if views:
+        # the segment view and the conversion of a morphology that came out of ArrayMorphLoader
+        try:
+            extra = {"len": len(m.segments), "view": view_json(m), "conv": conv_json(m)}
+        except Exception as e:  # noqa: BLE001
+            extra = {"len": None, "view": None, "conv": None, "view_error": exc_name(e)}
+    return {**extra, "verts": [[int(x) for x in row] for row in v.reshape(-1, 4)] if v.size else [],
             "conn": ints(c), "mask": [bool(x) for x in k.ravel()],
             "shapes": [list(v.shape), list(c.shape), list(k.shape)],
             "dtypes": [str(v.dtype), str(c.dtype), str(k.dtype)],
@@ -164,9 +185,9 @@ def close_all():
         pass
 
 
-def roundtrip(data, written, tmp, tag):
+def roundtrip(data, written, tmp, tag, path=None):
     """write `data`, load it back; `written` = the ArrayMorphology objects the file must contain"""
-    path = os.path.join(tmp, tag + ".h5")
+    path = path or os.path.join(tmp, tag + ".h5")
     out = {}
     before = [tuple(np.array(x, copy=True) for x in arrays_of(m)) for m in written]
     try:
@@ -187,7 +208,7 @@ def roundtrip(data, written, tmp, tag):
         return out
     out["r"] = "ok"
     loaded = list(doc.morphology)
-    out["loaded"] = [morph_json(m) for m in loaded]
+    out["loaded"] = [morph_json(m, views=True) for m in loaded]
     out["loaded_types"] = sorted(set(type(m).__name__ for m in loaded))
     # property predicate: identical vertex, connectivity and mask arrays for every morphology
     # (multiset: the loader does not restore names); numpy equality incl. shape
@@ -234,6 +255,42 @@ def run_morph(c, tmp, tag):
     except Exception as e:  # noqa: BLE001
         return {"r": "build:" + exc_name(e)}
     return roundtrip(m, [m], tmp, tag)
+
+
+def build_doc(c):
+    doc = neuroml.NeuroMLDocument(id="doc")
+    written = []
+    for cd in c["cells"]:
+        cell = neuroml.Cell(id=cd["id"])
+        cell.morphology = make_morph(cd["m"])
+        doc.cells.append(cell)
+        written.append(cell.morphology)
+    for md in c["morphs"]:
+        m = make_morph(md)
+        doc.morphology.append(m)
+        written.append(m)
+    return doc, written
+
+
+def run_history(c, tmp, tag):
+    """several write(data, path) calls on ONE path, each followed by a load"""
+    path = os.path.join(tmp, tag + "_history.h5")
+    if c.get("preexisting") == "garbage":
+        with open(path, "wb") as f:
+            f.write(b"not an hdf5 file")
+    res = []
+    for step in c["steps"]:
+        try:
+            if "doc" in step:
+                data, written = build_doc(step["doc"])
+            else:
+                data = make_morph(step["morph"])
+                written = [data]
+        except Exception as e:  # noqa: BLE001
+            res.append({"r": "build:" + exc_name(e)})
+            continue
+        res.append(roundtrip(data, written, tmp, tag, path=path))
+    return {"steps": res}
 
 
 # ------------------------------------------------------------------ frame: two morphologies sharing their inputs
@@ -333,6 +390,7 @@ def main():
             "docs": [run_doc(c, tmp, "d%d" % i) for i, c in enumerate(payload.get("docs", []))],
             "morphs": [run_morph(c, tmp, "m%d" % i) for i, c in enumerate(payload.get("morphs", []))],
             "frames": [run_frame(c, tmp, "f%d" % i) for i, c in enumerate(payload.get("frames", []))],
+            "histories": [run_history(c, tmp, "h%d" % i) for i, c in enumerate(payload.get("histories", []))],
         }
     finally:
         shutil.rmtree(tmp, ignore_errors=True)
